@@ -344,4 +344,155 @@ theorem entries_comm (P : Prog) (kvs : List (GoVal × GoVal)) : ∀ (k v : Ty) (
 termination_by structural kvs
 end
 
+/-! ### the hypothesis `aligned` is symmetric on well-formed values -/
+
+theorem alignedEntries_iff (P : Prog) (k v : Ty) (mb : List (GoVal × GoVal)) : ∀ (ma : List (GoVal × GoVal)),
+    alignedEntries P k v ma mb = true ↔ EntriesOK (aligned P v) k ma mb := by
+  intro ma
+  induction ma with
+  | nil => simp [alignedEntries, EntriesOK]
+  | cons x r ih =>
+    obtain ⟨key, val⟩ := x
+    simp only [alignedEntries, Bool.and_eq_true, ih, EntriesOK, List.mem_cons, forall_eq_or_imp]
+    constructor
+    · intro h
+      refine ⟨?_, h.2⟩
+      cases hi : index k mb key with
+      | none => simp [hi] at h
+      | some w => exact ⟨w, rfl, by simpa [hi] using h.1⟩
+    · intro h
+      refine ⟨?_, h.2⟩
+      obtain ⟨w, hi, hR⟩ := h.1
+      simp [hi, hR]
+
+theorem map_aligned_comm (P : Prog) (k v : Ty) (ma mb : List (GoVal × GoVal))
+    (hwb : keysWF k mb = true)
+    (H : ∀ e ∈ ma, ∀ e' ∈ mb, aligned P v e.2 e'.2 = true → aligned P v e'.2 e.2 = true)
+    (h : aligned P (.map k v) (.map ma) (.map mb) = true) : aligned P (.map k v) (.map mb) (.map ma) = true := by
+  simp only [aligned, entriesOf, Bool.or_eq_true] at h ⊢
+  by_cases hl : ma.length = mb.length
+  · right
+    have h' := h.resolve_left (by simp [hl])
+    by_cases hk : k.isStruct = true
+    · simp only [hk, if_true] at h' ⊢
+      have : ma = [] := by simpa using h'
+      subst this
+      have : mb = [] := List.eq_nil_of_length_eq_zero (by simpa using hl.symm)
+      simp [this]
+    · have hk' : k.isStruct = false := by simpa using hk
+      simp only [hk', Bool.false_eq_true, if_false, Bool.and_eq_true, alignedEntries_iff, List.all_eq_true] at h' ⊢
+      have := entriesOK_flip (aligned P v) (aligned P v) k hk' ma mb hwb h'.1 h'.2 H
+      exact ⟨this.1, this.2⟩
+  · left
+    simp only [bne_iff_ne, ne_eq]
+    exact fun h => hl h.symm
+
+mutual
+theorem aligned_comm (P : Prog) (a : GoVal) : ∀ (ty : Ty) (b : GoVal), wf P ty a = true → wf P ty b = true →
+    aligned P ty a b = true → aligned P ty b a = true := by
+  intro ty b ha hb h
+  cases a with
+  | nil =>
+    cases ty <;> cases b <;> simp_all [aligned, wf, baseOK, elemsOf, entriesOf]
+    all_goals (first | (rename_i xs; cases xs <;> simp [alignedList, alignedEntries]) | skip)
+  | bool x => cases ty <;> simp [wf, baseOK] at ha; cases b <;> simp_all [aligned, wf, baseOK]
+  | int x => cases ty <;> simp [wf, baseOK] at ha <;> cases b <;> simp_all [aligned, wf, baseOK]
+  | dbl x => cases ty <;> simp [wf, baseOK] at ha; cases b <;> simp_all [aligned, wf, baseOK]
+  | bytes x => cases ty <;> simp [wf, baseOK] at ha <;> cases b <;> simp_all [aligned, wf, baseOK]
+  | list xs =>
+    cases ty <;> simp [wf, baseOK] at ha
+    all_goals
+      rename_i e
+      cases b <;> simp [wf, baseOK] at hb
+      · simp [aligned]
+      · rename_i ys
+        simp only [aligned, elemsOf, Bool.or_eq_true] at h ⊢
+        by_cases hl : xs.length = ys.length
+        · right
+          exact alignedList_comm P xs e ys ha hb (h.resolve_left (by simp [hl]))
+        · left
+          simp only [bne_iff_ne, ne_eq]
+          exact fun h => hl h.symm
+  | map ma =>
+    cases ty <;> simp [wf, baseOK] at ha
+    rename_i k v
+    cases b <;> simp [wf, baseOK] at hb
+    · simp [aligned]
+    · rename_i mb
+      exact map_aligned_comm P k v ma mb hb.1 (alignedEntries_comm P ma k v mb ha.2 hb.2) h
+  | strct fs =>
+    cases ty <;> simp [wf, baseOK] at ha
+    rename_i i
+    cases b <;> simp [wf, baseOK] at hb
+    · simp [aligned]
+    · rename_i gs
+      simp only [aligned] at h ⊢
+      cases hs : P.struct? i with
+      | none => simp [hs] at h
+      | some sd =>
+        simp only [hs] at ha hb h ⊢
+        exact alignedFields_comm P fs sd.fields gs ha hb h
+termination_by structural a
+theorem alignedList_comm (P : Prog) (xs : List GoVal) : ∀ (e : Ty) (ys : List GoVal), wfList P e xs = true → wfList P e ys = true →
+    alignedList P e xs ys = true → alignedList P e ys xs = true := by
+  intro e ys ha hb h
+  cases xs with
+  | nil => cases ys <;> simp [alignedList]
+  | cons x r =>
+    cases ys with
+    | nil => simp [alignedList]
+    | cons y t =>
+      simp only [wfList, Bool.and_eq_true] at ha hb
+      simp only [alignedList, Bool.and_eq_true] at h ⊢
+      exact ⟨aligned_comm P x e y ha.1 hb.1 h.1, alignedList_comm P r e t ha.2 hb.2 h.2⟩
+termination_by structural xs
+theorem alignedFields_comm (P : Prog) (as : List GoVal) : ∀ (defs : List FieldDef) (bs : List GoVal),
+    wfFields P defs as = true → wfFields P defs bs = true → alignedFields P defs as bs = true → alignedFields P defs bs as = true := by
+  intro defs bs ha hb h
+  cases as with
+  | nil => cases defs <;> cases bs <;> simp_all [alignedFields, wfFields]
+  | cons a as' =>
+    cases defs with
+    | nil => simp [wfFields] at ha
+    | cons f fs =>
+      cases bs with
+      | nil => simp [wfFields] at hb
+      | cons b bs' =>
+        simp only [wfFields, Bool.and_eq_true] at ha hb
+        simp only [alignedFields] at h ⊢
+        rw [Bool.and_eq_true] at h ⊢
+        refine ⟨?_, alignedFields_comm P as' fs bs' ha.2 hb.2 h.2⟩
+        by_cases hp : isPtrField f = true
+        · have h1 := h.1
+          simp only [hp, if_true] at h1 ⊢
+          rw [Bool.or_comm (isNilV b) (isNilV a), Bool.and_comm (baseOK f.ty b) (baseOK f.ty a)]
+          exact h1
+        · have h1 := h.1
+          simp only [hp, if_false, Bool.false_eq_true] at h1 ⊢
+          rw [Bool.and_eq_true] at h1 ⊢
+          refine ⟨?_, aligned_comm P a f.ty b ha.1 hb.1 h1.2⟩
+          have h2 := h1.1
+          split at h2
+          · rename_i hc; simp only [hc, if_true] at h2 ⊢
+            rw [Bool.beq_comm]; exact h2
+          · rename_i hc; simp [hc]
+termination_by structural as
+theorem alignedEntries_comm (P : Prog) (kvs : List (GoVal × GoVal)) : ∀ (k v : Ty) (mb : List (GoVal × GoVal)),
+    wfEntries P k v kvs = true → wfEntries P k v mb = true →
+      ∀ e ∈ kvs, ∀ e' ∈ mb, aligned P v e.2 e'.2 = true → aligned P v e'.2 e.2 = true := by
+  intro k v mb ha hb e he e' he'
+  cases kvs with
+  | nil => cases he
+  | cons x r =>
+    obtain ⟨key, val⟩ := x
+    simp only [wfEntries, Bool.and_eq_true] at ha
+    have hb' := wfEntries_mem P k v mb hb e' he'
+    cases List.mem_cons.mp he with
+    | inl heq =>
+      subst heq
+      exact aligned_comm P val v e'.2 ha.1.2 hb'.2
+    | inr hr => exact alignedEntries_comm P r k v mb ha.2 hb e hr e' he'
+termination_by structural kvs
+end
+
 end Gen.DeepEq
